@@ -94,6 +94,10 @@ UNITS = {
         'title': 'integer literal radix-conversion closures (extracted from fn integer): Ok iff the value fits i64, value exact (unbounded, under assumed from_str_radix contracts)',
         'witness': ['witness-k10'], 'replay': 'replay-k10',
     },
+    'V9': {
+        'engine': 'verus', 'complete': True,
+        'title': 'hexescape::<N> closures: exactly N digits, hex value, Unicode scalar values only (unbounded, under assumed from_str_radix / char::from_u32 contracts)',
+    },
     # ---------------------------------------------------------------- Kani, complete per fixed input width
     'K2': {
         'engine': 'kani', 'crate': 'toml_edit',
@@ -151,10 +155,10 @@ UNITS = {
 # property -> tier -> unit list
 PLAN = {
     'C10': {'quick': ['V1', 'K1'], 'thorough': ['V1', 'K1']},
-    'C04': {'quick': ['V1', 'V3', 'V4', 'V5', 'V6', 'V7', 'K1', 'K12'], 'thorough': ['V1', 'V3', 'V4', 'V5', 'V6', 'V7', 'K1', 'K12', 'K8t', 'K3t', 'K5']},
+    'C04': {'quick': ['V1', 'V3', 'V4', 'V5', 'V6', 'V7', 'V9', 'K1', 'K12'], 'thorough': ['V1', 'V3', 'V4', 'V5', 'V6', 'V7', 'V9', 'K1', 'K12', 'K8t', 'K3t', 'K5']},
     'C11': {'quick': ['K7', 'K7s', 'K6e', 'K6t', 'K6d', 'V8', 'K11f'], 'thorough': ['K7', 'K7s', 'K6e', 'K6t', 'K6d', 'V8', 'K11f']},
-    'C01': {'quick': ['K1', 'K7', 'V4', 'V8', 'K2'], 'thorough': ['K1', 'K7', 'V4', 'V8', 'K2', 'K2y', 'K5']},
-    'C02': {'quick': ['K2', 'K7s', 'V5', 'V7', 'V8'], 'thorough': ['K2', 'K2y', 'K7s', 'V5', 'V7', 'V8', 'K5']},
+    'C01': {'quick': ['K1', 'K7', 'V4', 'V8', 'V9', 'K2'], 'thorough': ['K1', 'K7', 'V4', 'V8', 'V9', 'K2', 'K2y', 'K5']},
+    'C02': {'quick': ['K2', 'K7s', 'V5', 'V7', 'V8', 'V9'], 'thorough': ['K2', 'K2y', 'K7s', 'V5', 'V7', 'V8', 'V9', 'K5']},
     'C05': {'quick': ['V3', 'K12'], 'thorough': ['V3', 'K12']},
     'C12': {'quick': ['V4', 'V5', 'V6', 'V7', 'K2', 'K3q'], 'thorough': ['V4', 'V5', 'V6', 'V7', 'K2', 'K2y', 'K3q', 'K3t', 'K3a']},
     'C14': {'quick': ['K11'], 'thorough': ['K11']},
